@@ -171,6 +171,7 @@ func r10Compare(c *Ctx, p *Prog, cp string) {
 			}
 			key := fmt.Sprintf("%s|Compare world cell(i)%scell(j) iNull=%v jNull=%v", cp, rel, iNull, jNull)
 			anyNull := iNull || jNull
+			diffCmp := ""
 			pe := &pathExec{fn: fn}
 			relTruth := func(op token.Token, swapped bool) bool {
 				r := rel
@@ -220,6 +221,14 @@ func r10Compare(c *Ctx, p *Prog, cp string) {
 					}
 				case *ssa.BinOp:
 					wx, wy := whichCell(fn, t.X), whichCell(fn, t.Y)
+					// the sign of a difference of two cells is not their order (it overflows)
+					for _, o := range []ssa.Value{t.X, t.Y} {
+						if d, ok := pe.resolve(o).(*ssa.BinOp); ok && d.Op == token.SUB {
+							if a, b := whichCell(fn, d.X), whichCell(fn, d.Y); a != 0 && b != 0 && a != b && !isFloatType(d.Type()) {
+								diffCmp = "the order of two cells is decided by the sign of their difference (" + d.String() + "), which overflows for keys far apart (MaxInt64 vs -1)"
+							}
+						}
+					}
 					// result of bytes.Compare(x, y) against -1 / 1 / 0
 					if call, ok := pe.resolve(t.X).(*ssa.Call); ok && isFuncNamed(calleeObj(call), "bytes", "", "Compare") {
 						if k, isK := constInt(t.Y); isK && t.Op == token.EQL {
@@ -265,7 +274,11 @@ func r10Compare(c *Ctx, p *Prog, cp string) {
 			end, why := pe.run()
 			ret, ok := end.(*ssa.Return)
 			if !ok {
-				c.undecided(key, p.pos(fn.Pos()), "cannot evaluate: "+why)
+				if diffCmp != "" {
+					c.bad(key, p.pos(fn.Pos()), diffCmp)
+				} else {
+					c.undecided(key, p.pos(fn.Pos()), "cannot evaluate: "+why)
+				}
 				continue
 			}
 			rv := pe.resolve(ret.Results[0])
